@@ -160,7 +160,7 @@ EXTRA = {
         "(cutoff default nr*dr when None or zero) and SetFL_EAMTabulation.write with its step properties, regenerated from the source, write the model's whole file.",
  "C04": " C04_code_write_fs, C04_code_tabeam_fs, C04_code_tabeam_fs_missing, C04_code_tabulation_write_setfl/_tabeam: writeSetFLFinnisSinclair, writeTABEAMFinnisSinclair (A in element "
         "order, B in sorted order, dictionary look-up under 'dens A B'; a missing entry raises and nothing is written) and the two Finnis-Sinclair tabulation classes' write methods, "
-        "regenerated from the source, write the model's files. C04_code_eam_builder_fs(_duplicate): EAM_Potential_Builder_FS as it runs on an object of the subclass, regenerated (override check, alias-tracked nested dictionaries), builds eamBuildFS for every set order. C04_code_fs_key(_split/_arity): the key parser of a Finnis-Sinclair density entry (species_func inside _parse_eam_fs_density_line, regenerated with str.split(\"->\") as a two-character scan) reads A->B as (from=A, to=B) for all labels free of '>', refuses blank labels and any other number of arrows.",
+        "regenerated from the source, write the model's files. C04_code_eam_builder_fs(_duplicate): EAM_Potential_Builder_FS as it runs on an object of the subclass, regenerated (override check, alias-tracked nested dictionaries), builds eamBuildFS for every set order. C04_code_fs_key(_split/_arity/_has_arrow/_no_arrow): the key parser of a Finnis-Sinclair density entry (species_func inside _parse_eam_fs_density_line, regenerated with str.split(\"->\") as a two-character scan) reads A->B as (from=A, to=B) for all labels free of '>', refuses blank labels and any other number of arrows, and agrees with the '->' in key test by which parsed_sections chooses the Finnis-Sinclair flavour.",
  "C05": " C05_code_tabulate/_embedding/_density_*/_pair_potentials/_except_density/_write/_tabulation_write: every function of _dlpoly_writeTABEAM.py and TABEAM_EAMTabulation.write "
         "regenerated from the source write the model's tabeam; that sorted(set(sorted pairs)) is the triangular enumeration of the sorted labels is proved.",
  "C11": " C11_code_pair_defaults/_eam_defaults/_dlpoly_cutoffs/_lammps_cutoffs: the four extract_cutoffs methods of the tabulation factories regenerated from the source fill in exactly "
